@@ -15,6 +15,8 @@ CHECKS = {
          "Lean 4 proof (check backend model, all functions) + translator (Check API table) + differential correspondence", "5/C19"),
  "C03": ("Lean theorems: the core checks ignore every parsing option, hence whatever the lazy run returns satisfies the stripped schema (any scope table / depth); strict='filter' leaves no undeclared column; coercion is idempotent, is the identity on conforming data and yields data passing the dtype's own check; fillna/filter idempotent; column-level fixpoint. Differential: returned table vs model of add_missing/filter/defaults/coerce/drop, and the metamorphic oracle on the implementation (re-validate with the stripped schema and with the schema itself), SeriesSchema+index, polars",
          "Lean 4 proof (parse pipeline model, postcondition, idempotence lemmas) + differential correspondence + metamorphic re-validation", "5/C03"),
+ "C11": ("Lean theorems: the result of drop_invalid_rows is the parsed frame at the kept positions in original order; a row is kept iff no collected error names it; the rows named by a field's errors are exactly the rows violating nullability / uniqueness-as-reported / a check (every check that evaluates). Differential: surviving positions vs the Lean row-level spec on the parsed frame, survivor values vs the parse model, non-row violations must raise; pandas and polars",
+         "Lean 4 proof (row exactness of the error report and of dropRows) + differential correspondence", "5/C11"),
 }
 NA = {}
 for i in range(1, 21):
